@@ -137,6 +137,19 @@ pub fn paths(body: &[Stmt]) -> Vec<Vec<PStmt>> {
                     st.cur.push(PStmt::Then(a2));
                 }
                 Stmt::Branch(blocks) => {
+                    let is_last = top.idx + 1 == top.stmts.len();
+                    if is_last {
+                        // Control leaves a statement list from its LAST STATEMENT NODE. If that is a
+                        // branch, the flow out of the list continues from the branch statement
+                        // itself (a no-op), not from the ends of its blocks: the blocks are
+                        // explored as terminal paths.
+                        for b in blocks {
+                            let mut s2 = st.clone();
+                            s2.frames = vec![Frame { stmts: b, idx: 0, introduced: vec![] }];
+                            run(s2, ctr, out);
+                        }
+                        continue;
+                    }
                     for b in blocks {
                         let mut s2 = st.clone();
                         s2.frames.push(Frame { stmts: b, idx: 0, introduced: vec![] });
@@ -145,13 +158,23 @@ pub fn paths(body: &[Stmt]) -> Vec<Vec<PStmt>> {
                     return;
                 }
                 Stmt::Match(t, cases) => {
+                    let is_last = top.idx + 1 == top.stmts.len();
+                    // the match statement itself evaluates its discriminee (an `if` morphism)
+                    let disc = rn_term(t, &mut st, ctr);
+                    st.cur.push(PStmt::If(IfAtom::Defined(disc.clone())));
                     for c in cases {
                         let mut s2 = st.clone();
-                        let disc = rn_term(t, &mut s2, ctr);
-                        s2.frames.push(Frame { stmts: &c.body, idx: 0, introduced: vec![] });
+                        if is_last {
+                            s2.frames = vec![Frame { stmts: &c.body, idx: 0, introduced: vec![] }];
+                        } else {
+                            s2.frames.push(Frame { stmts: &c.body, idx: 0, introduced: vec![] });
+                        }
                         let pat = Term::App(c.ctor, c.args.iter().map(|x| rn_term(x, &mut s2, ctr)).collect());
-                        s2.cur.push(PStmt::If(IfAtom::Eq(disc, pat)));
+                        s2.cur.push(PStmt::If(IfAtom::Eq(disc.clone(), pat)));
                         run(s2, ctr, out);
+                    }
+                    if is_last {
+                        continue;
                     }
                     return;
                 }
